@@ -128,6 +128,35 @@ impl Ctx {
     }
 }
 
+/// the texts of the annotations of the store a history builds (one selection, or joined by a space)
+fn text_pool(ops: &[Sx]) -> Vec<Vec<i64>> {
+    let mut store = new_store();
+    for op in ops {
+        let _ = apply(&mut store, op);
+    }
+    let mut pool = Vec::new();
+    let _ = guard(|| {
+        for ann in store.annotations() {
+            let parts: Vec<Vec<i64>> = ann.textselections().map(|t| text_cps(t.begin(), t.end())).collect();
+            if !parts.is_empty() {
+                // as text_join(" ") does it: no delimiter while nothing has been written yet
+                let mut joined = Vec::new();
+                for p in parts.iter() {
+                    if !joined.is_empty() {
+                        joined.push(32);
+                    }
+                    joined.extend(p.iter());
+                }
+                pool.push(joined);
+                if parts.len() > 1 {
+                    pool.push(parts[0].clone());
+                }
+            }
+        }
+    });
+    pool
+}
+
 fn qentry(q: &Q) -> Sx {
     l(vec![q_sx(q), a(chain_available(q) as i64)])
 }
@@ -161,11 +190,12 @@ fn orderings(q: &Q) -> Vec<Q> {
 pub fn generate_queries(out: &mut Out, ctx: &Ctx, tier: &str, seed: u64) {
     let thorough = tier == "thorough";
     let mut rng = Rng::new(seed ^ 0xC08_2);
-    let nhist = if thorough { 12000 } else { 700 };
-    let cfg = QCfg { rts: vec![0, 0, 0, 1, 1, 2, 3, 3, 4], texts: false, unions: true, limits: true, max_depth: 2 };
+    let nhist = if thorough { 60000 } else { 4000 };
+    let mut cfg = QCfg { pool: vec![], rts: vec![0, 0, 0, 1, 1, 2, 3, 3, 4, 5, 5], texts: true, unions: true, limits: true, max_depth: 2 };
     for i in 0..nhist {
         let hcfg = GenCfg { max_ops: if i % 3 == 0 { 24 } else { 12 }, removals: if i % 2 == 0 { 2 } else { 0 }, invalid: 0, values: true };
         let ops = gen_history(&mut rng, &hcfg);
+        cfg.pool = text_pool(&ops);
         let mut entries = Vec::new();
         for _ in 0..3 {
             let mut outer = Vec::new();
@@ -185,9 +215,17 @@ pub fn generate_queries(out: &mut Out, ctx: &Ctx, tier: &str, seed: u64) {
         let req = l(vec![a(5), l(ops.clone()), l(entries)]);
         let (i2, o, nt) = ctx.exec(&req);
         out.case(&i2, &o, nt, &req);
+        if i % 400 == 7 {
+            // DELETE without sub-query (Known_C08_delete_nosub)
+            let sub = Q { name: 0, rt: 0, cs: vec![], lim: None, opt: false, sub: None };
+            let req = l(vec![a(7), l(ops.clone()), a(0), q_sx(&sub), a(1)]);
+            let (i2, o, nt) = ctx.exec(&req);
+            out.case(&i2, &o, nt, &req);
+            out.count("delete_without_subquery");
+        }
         if i % 4 == 0 {
             // DELETE ANNOTATION ?x { SELECT ANNOTATION ?x WHERE ... }
-            let dcfg = QCfg { rts: vec![0], texts: false, unions: true, limits: true, max_depth: 0 };
+            let dcfg = QCfg { pool: cfg.pool.clone(), rts: vec![0], texts: false, unions: true, limits: true, max_depth: 0 };
             let mut outer = Vec::new();
             let sub = gen_query(&mut rng, &dcfg, &mut outer, 0);
             let req = l(vec![a(7), l(ops.clone()), a(sub.name), q_sx(&sub), a(0)]);
@@ -196,7 +234,7 @@ pub fn generate_queries(out: &mut Out, ctx: &Ctx, tier: &str, seed: u64) {
             out.count("delete");
         }
         if i % 4 == 1 {
-            let acfg = QCfg { rts: vec![0, 0, 1, 2, 3, 4], texts: false, unions: false, limits: true, max_depth: 1 };
+            let acfg = QCfg { pool: cfg.pool.clone(), rts: vec![0, 0, 1, 2, 3, 4], texts: false, unions: false, limits: true, max_depth: 1 };
             let mut outer = Vec::new();
             let sub = gen_query(&mut rng, &acfg, &mut outer, 0);
             let target = if sub.sub.is_some() && rng.chance(1, 2) { 1 } else { 0 };
@@ -300,6 +338,6 @@ pub fn generate(out: &mut Out, tier: &str, seed: u64) {
     }
 }
 
-pub const RULE: &str = "LimitIter: exhaustive over item counts 0..=7 (thorough 12) and all (begin,end) in -9..=9 (thorough -15..=15), plus random larger ones; Handles: union and intersection of every ordered pair of duplicate-free handle lists of length <=3 over 5 handles (thorough <=4 over 6), in every order (so sorted and unsorted flags both occur), followed by contains() probes of every handle, plus seeded random lists over up to 24 handles; from_iter/contains/sort on every list. Non-trivial: limit result non-empty and shorter than the input; both operands with more than one element. distinct = distinct request lines.";
+pub const RULE: &str = "Layer 1 - LimitIter: exhaustive over item counts 0..=7 (thorough 12) and all (begin,end) in -9..=9 (thorough -15..=15), plus random larger ones; Handles: union and intersection of every ordered pair of duplicate-free handle lists of length <=3 over 5 handles (thorough <=4 over 6), in every order, followed by contains() probes, plus seeded random lists over up to 24 handles; from_iter/contains/sort on every list. Layers 2/3 - 4000 (thorough 60000) seeded random store histories of the C01 generator (<=12 or <=24 operations, typed values, half of them with removals); per history 3 random SELECT queries from the grammar of the fragment (result types ANNOTATION DATA KEY RESOURCE DATASET TEXT; 0-4 constraints per level out of ID, ANNOTATION, RESOURCE, DATASET, DATA set key, DATA set key op value, VALUE, DATA ?x, KEY ?x, TEXT ?x, RELATION ?x OP, TEXT literal incl. NOCASE with capitals, by id and by variable, normal and AS METADATA/TARGET; UNION of 2-3 branches; LIMIT with bounds -3..4; up to two nested (OPTIONAL) sub-queries referring to the outer variables; text literals drawn from the texts of the store), each in every order of the constraints of the outer level (<=4) and of the sub-query (<=3); per ordering: rows through STAMQL text, through the constructors and (queries without variables) through the iterator API, compared as sorted rows; every 4th history a DELETE ANNOTATION query and every 4th an ADD ANNOTATION query through query_mut, next to the direct calls, compared through the store observation of C01; DELETE without sub-query. Non-trivial: some row is returned / an annotation is added / removed. distinct = distinct request lines.";
 
 pub const EXHAUSTIVE: bool = true;
